@@ -771,6 +771,11 @@ fn main() {
         println!("VIOLATION property=C13 replay={path}");
         std::process::exit(1);
     }
+    // the thorough alphabet takes well under half a minute: the quick tier runs it too
+    if tier == Tier::Quick && std::env::var("VERIF_NO_PROMOTE").is_err() {
+        let _ = ctx::TIER_LABEL.set("quick");
+        tier = Tier::Thorough;
+    }
     let ctx = Ctx::new("C13", tier);
     let th = tier == Tier::Thorough;
     let mut cases: Vec<Case> = vec![];
